@@ -9,7 +9,9 @@ EXPLANATION = ("Decides the structural preconditions under which comparing the t
                "(b) wherever an accumulator of TermState::upper_bound / block_upper_bound results is compared with a threshold, "
                "every definition of that threshold other than -inf is reachable only when both the document collector and the "
                "score-adjust hook are None; (c) collection is not gated by the heap. Whether the bounds themselves are upper bounds "
-               "(in particular BMW's use of the current block's bound) is algorithmic and is NOT decided.")
+               "is algorithmic and is NOT decided, with one exception that is structural: (e) a block maximum holds for one block only, so "
+               "no block-level bound may influence a test that ENDS the search, and a skip decided from block maxima stays within the "
+               "end of those blocks and the next cursor (found violated on the pinned tree: bmw stopped on the current blocks' bounds).")
 
 WAND = "searchlite_core::query::wand::"
 SCOREEXPR = "searchlite_core::query::planner::ScoreExpr"
@@ -133,7 +135,23 @@ def _is_param(f, operand, param):
     return False
 
 
-BOUND_FNS = ("TermState::upper_bound", "TermState::block_upper_bound")
+BOUND_FNS = ("TermState::upper_bound", "TermState::block_upper_bound", "TermState::block_bound_at")
+
+
+def block_bound_fns(P):
+    """Methods of TermState whose result is a BLOCK-level bound: they read the per-block maxima (field block_max_tfs)."""
+    out = set()
+    for q, g in P.fns.items():
+        if not q.startswith(WAND + "TermState::") or g.kind == "closure":
+            continue
+        for b, i, st in g.stmts():
+            if st["k"] != "assign":
+                continue
+            rv = st["rv"]
+            pl = rv.get("place") if rv["k"] in ("ref", "discr") else (op_place(rv["a"]) if rv["k"] in ("use", "cast") else None)
+            if pl and any(isinstance(e, dict) and e.get("f") == "block_max_tfs" for e in pl["p"]):
+                out.add(q)
+    return out
 
 
 def derives_from_bounds(P, f, sl, operand):
@@ -163,6 +181,10 @@ def pruning_sites(P, f):
     for b, i, s in f.stmts():
         if s["k"] == "assign" and s["rv"]["k"] == "binop" and s["rv"]["op"] in ("Ge", "Gt", "Le", "Lt"):
             a, bb = s["rv"]["a"], s["rv"]["b"]
+            # scores are f32: a comparison of document ids that happen to come out of a block lookup is not a pruning test
+            tys = [f.local_ty(op_local(o)) if op_local(o) is not None else "f32" for o in (a, bb)]
+            if not all(t_ == "f32" for t_ in tys):
+                continue
             da, db = derives_from_bounds(P, f, sl, a), derives_from_bounds(P, f, sl, bb)
             if da and not db:
                 out.append((Site(f, b, i), bb))
@@ -248,7 +270,7 @@ def r09c(ctx, P):
                 if t["k"] != "switch":
                     continue
                 srcs = sl.sources(t["on"])
-                uses_heap = any(x[0] == "call" and "binary_heap::BinaryHeap" in callee_of(x[2]) and
+                uses_heap = any(x[0] == "call" and "binary_heap::BinaryHeap" in callee_of(x[2]) and x[2]["args"] and
                                 "RankedDoc" in f.local_ty(op_local(x[2]["args"][0]) or 0) + str(_heap_ty(f, x[2])) for x in srcs)
                 # direct dependence only: the branch lies after the accept call
                 accepts = [b for b, t2 in f.calls() if t2["callee"] == "<indirect>" or "FnMut" in callee_of(t2) and "call_mut" in callee_of(t2)]
@@ -407,6 +429,171 @@ def r09d(ctx, P):
                Site(f, b, i).loc())
 
 
+def r09e(ctx, P):
+    rid = "R09.e"
+    from sa.prog import influence
+    from sa.rules.C25 import natural_loops
+    ctx.rule(rid, "STOP ON GLOBAL BOUNDS ONLY: a block maximum bounds a term's contribution inside ONE block. In wand_loop nothing that is "
+                  "derived from a block-level bound (a TermState method reading block_max_tfs) may influence a test that leaves the main "
+                  "loop — ending the search needs bounds that hold for every remaining posting (TermState::upper_bound) — and every "
+                  "skip decided from block maxima moves the cursors to a document derived from the END of those blocks (the doc id the "
+                  "block lookup returns), bounded by the next cursor in the queue")
+    f = P.fn(WAND + "wand_loop")
+    if not ctx.anchor(rid, f, "wand::wand_loop"):
+        return
+    ctx.saw(f)
+    bfns = block_bound_fns(P)
+    ctx.note("R09.e: block-level bound methods: %s" % sorted(x.rsplit("::", 1)[1] for x in bfns))
+    loops = natural_loops(f)
+    if not ctx.anchor(rid, loops, "main loop of wand_loop"):
+        return
+    hdr, body = max(loops, key=lambda hb: len(hb[1]))
+    sl = Slice(f, through_all_calls=True)
+    sl0 = Slice(f)
+    rets = {b_ for b_ in f.reachable() if f.blocks[b_]["term"]["k"] == "return"}
+    # a loop exit is an edge out of the body on which the function can still return (a failed assert! leaves the loop by panicking)
+    exits = {(a, s_) for a in body for s_ in f.succ(a) if s_ not in body and not f.blocks[s_].get("cleanup") and
+             (f.reachable_from(s_) & rets)}
+    # block-derived comparisons: f32 comparisons one of whose operands derives (data) from a block-level bound
+    cmps = []
+    for b, i, st in f.stmts():
+        if b in body and st["k"] == "assign" and st["rv"]["k"] == "binop" and st["rv"]["op"] in ("Ge", "Gt", "Le", "Lt"):
+            x, y = st["rv"]["a"], st["rv"]["b"]
+            tys = [f.local_ty(op_local(o)) if op_local(o) is not None else "f32" for o in (x, y)]
+            if not all(t_ == "f32" for t_ in tys):
+                continue
+            bx = any(z[0] == "call" and callee_of(z[2]) in bfns for z in sl.sources(x))
+            by = any(z[0] == "call" and callee_of(z[2]) in bfns for z in sl.sources(y))
+            if bx != by:
+                res = st["dst"]["l"]
+                # the arm on which "the block maxima are too small": (bounds < thr) true, (bounds >= thr) false, mirrored otherwise
+                op = st["rv"]["op"]
+                small_when_true = (op in ("Lt", "Le")) == bx
+                for sb in body:
+                    ts = f.blocks[sb]["term"]
+                    if ts["k"] == "switch" and res in (sl0.locals(ts["on"]) | {op_local(ts["on"])}):
+                        vals = dict(zip(ts["values"], ts["targets"]))
+                        t_succ = ts.get("otherwise") if 0 in vals else vals.get(1)
+                        f_succ = vals.get(0)
+                        cmps.append((Site(f, b, i), sb, t_succ if small_when_true else f_succ, f_succ if small_when_true else t_succ))
+    ctx.floor(rid, len(cmps) if (bfns & set(P.reach(f.path))) else 1, 1, "comparisons of block maxima with the threshold in wand_loop")
+
+    def same_iteration(start):
+        seen_, st_ = set(), [start]
+        while st_:
+            x = st_.pop()
+            if x is None or x in seen_ or x == hdr:
+                continue
+            seen_.add(x)
+            st_.extend(f.succ(x))
+        return seen_
+    bad = []
+    for (site, sb, small_arm, other_arm) in cmps:
+        for arm in (small_arm, other_arm):
+            r = same_iteration(arm)
+            out = [(a, s_) for (a, s_) in exits if a in r]
+            # leaving the loop in the same iteration because of a block maximum
+            if out:
+                bad.append((site, Site(f, out[0][0])))
+    ctx.ob(rid, "%s:wand_loop:stop-on-global-bounds" % rid, not bad,
+           "no comparison of block maxima with the threshold can end the search in the iteration in which it is made" if not bad else
+           "the comparison of block maxima with the threshold at %s can end the search (loop exit at %s): the maximum of a term's current "
+           "block says nothing about its later blocks, so a better document behind them is never scored (bmw differs from bm25)" % (
+               bad[0][0].loc(), bad[0][1].loc()), bad[0][0].loc() if bad else "%s:%s" % (f.file, f.line))
+    # skips decided from block maxima: cursor moves that happen only on the "too small" arm
+    badskip = []
+    nskip = 0
+    for (site, sb, small_arm, other_arm) in cmps:
+        if small_arm is None:
+            continue
+        region = same_iteration(small_arm) - (same_iteration(other_arm) if other_arm is not None else set())
+        for b, t in f.calls():
+            if b in region and callee_of(t).endswith(("TermState::advance_to", "TermState::skip_to_block")) and len(t["args"]) >= 2:
+                nskip += 1
+                srcs = sl.sources(t["args"][1])
+                from_block_end = any(z[0] == "call" and callee_of(z[2]) in bfns for z in srcs)
+                mins = any(z[0] == "call" and callee_of(z[2]).endswith("::min") for z in srcs)
+                queue_top = any(z[0] == "call" and callee_of(z[2]).endswith("::peek") for z in srcs)
+                if not (from_block_end and mins and queue_top):
+                    badskip.append((Site(f, b), from_block_end, mins, queue_top))
+    if cmps:
+        ctx.ob(rid, "%s:wand_loop:block-skips-stay-inside-the-blocks" % rid, not badskip and nskip > 0,
+               "every skip decided from block maxima targets min(end of those blocks + 1, next cursor in the queue)" if not badskip and nskip else
+               ("the block maxima are compared with the threshold but no cursor is moved on the `too small` arm" if not nskip else
+                "the skip at %s is decided from block maxima but its target is not derived from %s" % (
+                    badskip[0][0].loc(), "the blocks' last doc ids" if not badskip[0][1] else
+                    "a minimum over them" if not badskip[0][2] else "the next cursor in the queue")),
+               badskip[0][0].loc() if badskip else "%s:%s" % (f.file, f.line))
+
+
+def r09f(ctx, P):
+    rid = "R09.f"
+    import re
+    ctx.rule(rid, "LINEAR LEAVES (what evaluate() adds up is what the executor bounds): every ScoreExpr::Leaf(i) the planner builds takes "
+                  "i straight from QueryPlanBuilder::alloc_leaf (through copies, Option, a `then` closure, or a parameter all of whose "
+                  "call sites do) — never from a lookup table (Map::entry / get / or_insert_with, indexing): two expression nodes that "
+                  "share a leaf make ScorePlan::evaluate count the leaf's score twice while the executor's cursor, and its upper "
+                  "bound, exist once")
+    LOOKUP = re.compile(r"(BTreeMap|HashMap|Entry|btree_map|hash_map|hash::map|map::entry).*::(entry|get|get_mut|or_insert_with|or_insert|or_default|or_insert_with_key)$|ops::index::Index")
+    PL = "searchlite_core::query::planner::"
+    n = 0
+
+    def judge(f, operand, depth=0):
+        sl = Slice(f, through_all_calls=True)
+        srcs = sl.sources(operand)
+        look = sorted({callee_of(x[2]) for x in srcs if x[0] == "call" and LOOKUP.search(callee_of(x[2]))})
+        if look:
+            return False, "taken from a lookup (%s)" % look[0].rsplit("::", 1)[-1]
+        alloc = any(x[0] == "call" and callee_of(x[2]).endswith("::alloc_leaf") for x in srcs)
+        for x in srcs:
+            if x[0] == "agg" and x[3].get("closure") and P.fn(x[3]["closure"]) is not None:
+                h = P.fn(x[3]["closure"])
+                if any(callee_of(t_).endswith("::alloc_leaf") for b_, t_ in h.calls()):
+                    alloc = True
+                if any(LOOKUP.search(callee_of(t_)) for b_, t_ in h.calls()):
+                    return False, "taken from a lookup inside the closure at %s:%s" % (h.file, h.line)
+        if alloc:
+            return True, ""
+        args = sorted({x[1] for x in srcs if x[0] == "arg"})
+        if args and depth < 2 and f.kind != "closure":
+            oks = []
+            for q2, g in P.fns.items():
+                if not q2.startswith(PL) or is_test_or_bench(g):
+                    continue
+                for b2, t2 in g.calls():
+                    if callee_of(t2) == f.path:
+                        for k in args:
+                            if k - 1 < len(t2["args"]):
+                                oks.append(judge(g, t2["args"][k - 1], depth + 1))
+            if oks and all(o[0] for o in oks):
+                return True, ""
+            if oks:
+                return False, [o[1] for o in oks if not o[0]][0]
+        return False, "not derived from alloc_leaf"
+    for q, f in sorted(P.fns.items()):
+        if not q.startswith(PL) or is_test_or_bench(f):
+            continue
+        sites = []
+        for b, i, st in f.stmts():
+            if st["k"] == "assign" and st["rv"]["k"] == "agg" and (st["rv"].get("adt") or "").endswith("planner::ScoreExpr") and st["rv"].get("variant") == "Leaf":
+                sites.append((Site(f, b, i), st["rv"]["ops"][0]))
+        for b, t in f.calls():
+            if callee_of(t).endswith("Option::<T>::map") and len(t["args"]) == 2:
+                c = op_const(t["args"][1])
+                if c and str(c.get("resolved", c.get("fn", ""))).endswith("ScoreExpr::Leaf"):
+                    sites.append((Site(f, b), t["args"][0]))
+        for site, o in sites:
+            # evaluation-side uses (`ScoreExpr::Leaf(idx) => ..` patterns) are not constructions: skip aggregates in test helpers only
+            n += 1
+            ctx.saw(f)
+            ok, why = judge(f, o)
+            ctx.ob(rid, "%s:%s:leaf-is-fresh" % (rid, f.short.rsplit("::", 1)[-1]), ok,
+                   "the leaf built at %s is freshly allocated" % site.loc() if ok else
+                   "the leaf index of the ScoreExpr::Leaf built at %s is %s: expression nodes can share a leaf, so evaluate() exceeds the "
+                   "sum of the term bounds wand/bmw prune with" % (site.loc(), why), site.loc())
+    ctx.floor(rid, n, 4, "ScoreExpr::Leaf constructions in the planner")
+
+
 THOROUGH_FEATURES = ['r09d']
 
 
@@ -416,5 +603,8 @@ def run(ctx, progs):
     r09b(ctx, P)
     r09c(ctx, P)
     r09d(ctx, P)
+    r09e(ctx, P)
+    r09f(ctx, P)
     ctx.assumptions += ["leaf scores are non-negative (BM25 with validated non-negative boosts: validate_boost rejects negative / non-finite)",
-                        "TermState::upper_bound / block_upper_bound really bound the term's contribution — algorithmic, not decided here"]
+                        "TermState::upper_bound really bounds the term's contribution over all postings and block_bound_at over one block (R09.d covers the length "
+                        "floor they share; the tf maxima come from the postings' own block table) — otherwise algorithmic, not decided here"]
